@@ -572,3 +572,307 @@ theorem growsA_any {t₁ t₂ : Table} (hs : Table.Sub t₁ t₂) (hT : Simp.tab
       exact ⟨fun a' h => frontEval_complete_mono' hs h, fun h => by rw [hk] at h; cases h⟩
 
 end Trion.Asm
+
+/-! ## acceptance up to an arithmetic overflow (number operands) -/
+
+namespace Trion.Front
+open Trion
+
+/-- the result is an `EvalError::Overflow` diagnostic -/
+def Res.isOverflow : Res → Prop
+  | .error (.evalErr (.overflow _)) => True
+  | _ => False
+
+/-- whenever `g'` succeeds, `g` succeeds with the same value or stops with an arithmetic overflow -/
+def GetLe (g g' : GetOut) : Prop :=
+  ∀ v x' d, g' = .ok v x' d → (∃ x, g = .ok v x d) ∨ (∃ x d₂ r, g = .stop x d₂ r ∧ r.isOverflow)
+
+def ConvLe (c c' : ConvOut) : Prop :=
+  ∀ A' D' I V, c' = .ok A' D' I V → (∃ A D, c = .ok A D I V) ∨ (∃ A D I₂ r, c = .stop A D I₂ r ∧ r.isOverflow)
+
+theorem GetLe.refl (g : GetOut) : GetLe g g := fun _ x' _ h => .inl ⟨x', h⟩
+
+theorem ConvLe.of_sim {c c' : ConvOut} (h : ConvSim c c') : ConvLe c c' := by
+  intro A' D' I V h'
+  obtain ⟨A, D, h2⟩ := h.2 A' D' I V h'
+  exact .inl ⟨A, D, h2⟩
+
+theorem conv_step_le (e : Arg → EvalOut) (loc : Bool) (k : Kind) (ks : List Kind) (pos : Nat) (pre rest : List Arg)
+    (done : Nat) (instr : Instr) (vals : List Val) (a a' : Arg)
+    (hg : GetLe (get k e loc pos done a) (get k e loc pos done a')) :
+    ConvLe (conv e loc (k :: ks) pos pre (a :: rest) done instr vals)
+      (conv e loc (k :: ks) pos pre (a' :: rest) done instr vals) := by
+  intro A' D' I V h'
+  simp only [conv] at h' ⊢
+  cases g2 : get k e loc pos done a' with
+  | stop x d r => rw [g2] at h'; cases h'
+  | ok v x' d =>
+    rw [g2] at h'
+    rcases hg v x' d g2 with ⟨x, g1⟩ | ⟨x, d₂, r, g1, hr⟩
+    · rw [g1]
+      simp only at h' ⊢
+      obtain ⟨A, D, h3⟩ := (conv_pre_irrel e loc ks (pos + 1) (x :: pre) (x' :: pre) rest d (setOp instr pos v)
+        (v :: vals)).2 A' D' I V h'
+      exact .inl ⟨A, D, h3⟩
+    · rw [g1]
+      exact .inr ⟨_, _, _, r, rfl, hr⟩
+
+/-- both directions -/
+structure GrowsO (k : Kind) (e₁ e₂ : Arg → EvalOut) (a : Arg) : Prop where
+  complete : ∀ a', e₁ a = .complete a' → e₂ a = .complete a'
+  stop : k.evals = true → ∀ a₁, ((∃ n, e₁ a = .noSuchVariable n a₁) ∨ (∃ c, e₁ a = .deferred c a₁)) →
+    ∀ loc pos done, done ≤ pos →
+      GetLe (get k e₂ loc pos done a₁) (get k e₂ loc pos done a) ∧ GetLe (get k e₂ loc pos done a) (get k e₂ loc pos done a₁)
+
+theorem get_stop_growsO {k : Kind} {e₁ e₂ : Arg → EvalOut} {a : Arg} (hg : GrowsO k e₁ e₂ a) {pos done : Nat}
+    {a' : Arg} {d' : Nat} {c : Bytes} (h : get k e₁ true pos done a = .stop a' d' (.deferred c)) (loc : Bool) :
+    d' = done ∧ GetLe (get k e₂ loc pos done a') (get k e₂ loc pos done a) ∧
+      GetLe (get k e₂ loc pos done a) (get k e₂ loc pos done a') := by
+  cases hk : k.evals with
+  | false => exact absurd h ((get_nonevals hk).2 _ _ _)
+  | true =>
+    rw [get_eq_post k hk] at h
+    cases he : evalArg e₁ true pos done a with
+    | error p =>
+      obtain ⟨x, r⟩ := p
+      rw [he] at h
+      simp only [GetOut.stop.injEq] at h
+      obtain ⟨h1, h2, h3⟩ := h
+      subst h1; subst h2; subst h3
+      refine ⟨rfl, ?_⟩
+      unfold evalArg at he
+      by_cases hd : done ≤ pos
+      · simp only [hd, if_true] at he
+        cases hx : e₁ a with
+        | complete y => rw [hx] at he; cases he
+        | deferred c' y =>
+          rw [hx] at he
+          simp only [Except.error.injEq, Prod.mk.injEq] at he
+          obtain ⟨h1, _⟩ := he
+          subst h1
+          exact hg.stop hk _ (.inr ⟨c', hx⟩) loc pos done hd
+        | noSuchVariable n y =>
+          rw [hx] at he
+          simp only [Except.error.injEq, Prod.mk.injEq] at he
+          obtain ⟨h1, _⟩ := he
+          subst h1
+          exact hg.stop hk _ (.inl ⟨n, hx⟩) loc pos done hd
+        | error er y => rw [hx] at he; cases he
+      · simp only [hd, if_false] at he; cases he
+    | ok p =>
+      obtain ⟨x, d⟩ := p
+      rw [he] at h
+      exact absurd h post_not_deferred
+
+theorem conv_retry_ov (e₁ e₂ : Arg → EvalOut) (loc : Bool) : ∀ (ks : List Kind) (pos : Nat) (pre rest : List Arg) (done : Nat)
+    (instr : Instr) (vals : List Val) (A : List Arg) (D : Nat) (I : Instr) (c : Bytes),
+    (∀ p ∈ List.zip ks rest, GrowsO p.1 e₁ e₂ p.2) → pos + ks.length ≤ 3 →
+    conv e₁ true ks pos pre rest done instr vals = .stop A D I (.deferred c) →
+    ∃ restA, A = pre.reverse ++ restA ∧ restA.length = rest.length ∧ done ≤ D ∧
+      I = replay (stores e₁ ks pos rest done) instr ∧
+      ConvLe (conv e₂ loc ks pos pre restA D I vals) (conv e₂ loc ks pos pre rest done instr vals) ∧
+      ConvLe (conv e₂ loc ks pos pre rest done instr vals) (conv e₂ loc ks pos pre restA D I vals) := by
+  intro ks
+  induction ks with
+  | nil => intro pos pre rest done instr vals A D I c _ _ h; simp [conv] at h
+  | cons k ks ih =>
+    intro pos pre rest done instr vals A D I c hgr hlen h
+    cases rest with
+    | nil => simp only [conv] at h; cases h
+    | cons a rest =>
+      have hga : GrowsO k e₁ e₂ a := hgr (k, a) (by simp)
+      simp only [conv] at h
+      cases hg : get k e₁ true pos done a with
+      | ok v a' d' =>
+        rw [hg] at h
+        simp only at h
+        obtain ⟨g1, g2, g3⟩ := get_ok_growsS hga.complete hg loc
+        have hlen' : pos + 1 + ks.length ≤ 3 := by simp only [List.length_cons] at hlen; omega
+        obtain ⟨restA, r1, r2, r3, r4, r5, r6⟩ :=
+          ih (pos + 1) (a' :: pre) rest d' (setOp instr pos v) (v :: vals) A D I c
+            (fun x hx => hgr x (by simp only [List.zip_cons_cons]; exact List.mem_cons_of_mem _ hx)) hlen' h
+        obtain ⟨s1, s2⟩ := stores_shape e₁ ks (pos + 1) (a' :: pre) rest d' (setOp instr pos v) (v :: vals) A D I c h
+        have hσ : stores e₁ ks (pos + 1) rest d' = [] ∨ (pos = 0 ∧ ∃ w, stores e₁ ks (pos + 1) rest d' = [(1, w)]) := by
+          cases hs : stores e₁ ks (pos + 1) rest d' with
+          | nil => exact .inl rfl
+          | cons p σ =>
+            rw [hs] at s1 s2
+            simp only [List.length_cons] at s1
+            have hp0 : pos = 0 := by omega
+            have hσ' : σ = [] := by
+              cases σ with
+              | nil => rfl
+              | cons _ _ => simp only [List.length_cons] at s1; omega
+            have hp1 := s2 p (by simp)
+            subst hσ'
+            subst hp0
+            exact .inr ⟨rfl, p.2, by cases p; simp only at hp1; subst hp1; rfl⟩
+        refine ⟨a' :: restA, by rw [r1]; simp, by simp [r2], Nat.le_trans g2 r3, ?_, ?_, ?_⟩
+        · simp only [stores, hg, replay, List.foldl_cons]; exact r4
+        · simp only [conv, g1, g3 D r3]
+          rw [r4, replay_absorb _ _ _ _ hσ, ← r4]
+          exact r5
+        · simp only [conv, g1, g3 D r3]
+          rw [r4, replay_absorb _ _ _ _ hσ, ← r4]
+          exact r6
+      | stop a' d' r =>
+        rw [hg] at h
+        simp only [ConvOut.stop.injEq] at h
+        obtain ⟨h1, h2, h3, h4⟩ := h
+        subst h4
+        obtain ⟨q1, q2, q3⟩ := get_stop_growsO hga hg loc
+        subst q1
+        subst h2
+        subst h3
+        refine ⟨a' :: rest, h1.symm, rfl, Nat.le_refl _, by simp [stores, hg, replay], ?_, ?_⟩
+        · exact conv_step_le e₂ loc k ks pos pre rest d' instr vals a' a q2
+        · exact conv_step_le e₂ loc k ks pos pre rest d' instr vals a a' q3
+
+/-- whenever `y` completes, `x` completes with the same instruction or ends with an arithmetic overflow diagnostic -/
+def AsmLe (x y : St × Res) : Prop :=
+  y.2 = .completed → (x.2 = .completed ∧ x.1.instr = y.1.instr) ∨ x.2.isOverflow
+
+/-- the code of `assemble` after `convert!` -/
+def assembleTail (addr n : Nat) : ConvOut → St × Res
+  | .stop args done instr r => (⟨addr, instr, done, args⟩, r)
+  | .ok args done instr vals =>
+    match finish addr instr vals n with
+    | .ok i => (⟨addr, i, done, args⟩, .completed)
+    | .error d => (⟨addr, instr, done, args⟩, .error d)
+
+theorem asmLe_of_convLe {addr n : Nat} {c c' : ConvOut} (h : ConvLe c c')
+    (hs : ∀ A D I, c' ≠ .stop A D I .completed) : AsmLe (assembleTail addr n c) (assembleTail addr n c') := by
+  intro hy
+  cases hc' : c' with
+  | stop A D I r =>
+    rw [hc'] at hy
+    simp only [assembleTail] at hy
+    subst hy
+    exact absurd hc' (hs A D I)
+  | ok A' D' I V =>
+    rcases h A' D' I V hc' with ⟨A, D, h1⟩ | ⟨A, D, I₂, r, h1, hr⟩
+    · rw [h1]
+      rw [hc'] at hy
+      simp only [assembleTail] at hy ⊢
+      cases hf : finish addr I V n with
+      | ok i => exact .inl ⟨rfl, rfl⟩
+      | error d => rw [hf] at hy; cases hy
+    · rw [h1]; exact .inr hr
+
+theorem assemble_eq_tail (st : St) (e : Arg → EvalOut) (loc : Bool)
+    (c1 : ¬ st.args.length > (kinds st.instr).length) (c2 : ¬ st.args.length < (kinds st.instr).length) :
+    assemble st e loc =
+      assembleTail st.addr (kinds st.instr).length (conv e loc (kinds st.instr) 0 [] st.args st.argsDone st.instr []) := by
+  unfold assemble assembleTail
+  simp only [c1, c2, if_false]
+  cases conv e loc (kinds st.instr) 0 [] st.args st.argsDone st.instr [] with
+  | stop A D I r => rfl
+  | ok A D I V => cases finish st.addr I V (kinds st.instr).length <;> rfl
+
+/-- **the retry theorem for `Front.assemble`, acceptance up to overflow**: first attempt deferred (by an unknown or a
+Deferred name); whenever one of the two runs over `e₂` completes, the other completes with the same instruction or ends
+with an arithmetic-overflow diagnostic -/
+theorem assemble_retry_ov (e₁ e₂ : Arg → EvalOut) (addr : Nat) (t : Instr) (args : List Arg)
+    (hgr : ∀ p ∈ List.zip (kinds t) args, GrowsO p.1 e₁ e₂ p.2) (fs1 : St) (c : Bytes)
+    (h1 : assemble ⟨addr, t, 0, args⟩ e₁ true = (fs1, .deferred c)) (loc : Bool) :
+    AsmLe (assemble fs1 e₂ loc) (assemble ⟨addr, t, 0, args⟩ e₂ loc) ∧
+    AsmLe (assemble ⟨addr, t, 0, args⟩ e₂ loc) (assemble fs1 e₂ loc) := by
+  have h1' := h1
+  unfold assemble at h1
+  simp only at h1
+  by_cases c1 : args.length > (kinds t).length
+  · rw [if_pos c1] at h1; cases h1
+  rw [if_neg c1] at h1
+  by_cases c2 : args.length < (kinds t).length
+  · rw [if_pos c2] at h1; cases h1
+  rw [if_neg c2] at h1
+  cases hc : conv e₁ true (kinds t) 0 [] args 0 t [] with
+  | ok A D I vals =>
+    rw [hc] at h1
+    simp only at h1
+    split at h1 <;> cases h1
+  | stop A D I r =>
+    rw [hc] at h1
+    simp only [Prod.mk.injEq] at h1
+    obtain ⟨hfs, hr⟩ := h1
+    subst hr
+    have hk3 := kinds_le_three t
+    obtain ⟨restA, r1, r2, _, r4, r5, r6⟩ := conv_retry_ov e₁ e₂ loc (kinds t) 0 [] args 0 t [] A D I c hgr (by omega) hc
+    simp only [List.reverse_nil, List.nil_append] at r1
+    subst r1
+    subst hfs
+    have hkI : kinds I = kinds t := by rw [r4, kinds_replay]
+    rw [assemble_eq_tail ⟨addr, I, D, A⟩ e₂ loc (by simpa [hkI, r2] using c1) (by simpa [hkI, r2] using c2),
+      assemble_eq_tail ⟨addr, t, 0, args⟩ e₂ loc c1 c2]
+    simp only [hkI]
+    exact ⟨asmLe_of_convLe r5 (fun A D I => Asm.conv_stop_not_completed e₂ loc _ _ _ _ _ _ _ _ _ _),
+      asmLe_of_convLe r6 (fun A D I => Asm.conv_stop_not_completed e₂ loc _ _ _ _ _ _ _ _ _ _)⟩
+
+end Trion.Front
+
+namespace Trion.Front
+open Trion
+
+theorem get_number_intro {k : Kind} (hk : k.number = true) {e : Arg → EvalOut} (loc : Bool) {pos done : Nat} (hd : done ≤ pos)
+    {x : Arg} {c : Int} {v : Val} (he : e x = .complete (.const c)) (hv : numVal k c = some v) :
+    get k e loc pos done x = .ok v (.const c) (pos + 1) := by
+  cases k <;> simp [Kind.number] at hk
+  all_goals
+    simp only [get, evalArg, hd, if_true, he]
+    simp only [numVal] at hv
+    split
+    · rename_i w hw
+      rw [hw] at hv
+      simp only [Option.map_some, Option.some.injEq] at hv
+      rw [← hv]
+    · rename_i hw
+      rw [hw] at hv
+      cases hv
+
+theorem get_eval_error {k : Kind} (hk : k.evals = true) {e : Arg → EvalOut} (loc : Bool) {pos done : Nat} (hd : done ≤ pos)
+    {x y : Arg} {er : EvalErr} (he : e x = .error er y) :
+    get k e loc pos done x = .stop y done (.error (.evalErr er)) := by
+  rw [get_eq_post k hk]
+  simp only [evalArg, hd, if_true, he]
+
+theorem number_evals {k : Kind} (hk : k.number = true) : k.evals = true := by
+  cases k <;> simp [Kind.number] at hk <;> rfl
+
+end Trion.Front
+
+namespace Trion.Asm
+open Trion
+
+theorem frontEval_overflow {t : Table} {x y : Arg} {k : Simp.OvKind}
+    (h : Simp.evaluateE (fun n => t.get n) Front.isRegister x = .err (.overflow k) y) :
+    frontEval t x = .error (.overflow (ovName k)) y := by
+  unfold frontEval evalIn
+  rw [h]
+  rfl
+
+/-- `GrowsO` at a NUMBER position: acceptance of the two routes differs at most by an arithmetic overflow -/
+theorem growsO_number {t₁ t₂ : Table} (hs : Table.Sub t₁ t₂) (hT : Simp.tableOk (fun n => t₂.get n)) {k : Front.Kind}
+    (hk : k.number = true) (a : Arg) (hlit : Simp.litsOk a = true) :
+    Front.GrowsO k (frontEval t₁) (frontEval t₂) a := by
+  refine ⟨fun a' h => frontEval_complete_mono' hs h, fun _ a₁ hl loc pos done hd => ⟨?_, ?_⟩⟩
+  · intro v x' d g
+    obtain ⟨c, e, n, rfl⟩ := Front.get_number_ok hk hd g
+    obtain ⟨ev, f, hc⟩ := (frontEval_complete_const t₂ a c).1 e
+    rcases Simp.retry_of_fresh_number (Table.sub_get hs) hT hlit (leftBy_of_frontEval hl) f hc with
+      ⟨ev₂, f₂, c₂⟩ | ⟨ko, y, f₂⟩
+    · exact .inl ⟨_, Front.get_number_intro hk loc hd ((frontEval_complete_const t₂ a₁ c).2 ⟨ev₂, f₂, c₂⟩) n⟩
+    · exact .inr ⟨y, done, _, Front.get_eval_error (Front.number_evals hk) loc hd (frontEval_overflow f₂), trivial⟩
+  · intro v x' d g
+    obtain ⟨c, e, n, rfl⟩ := Front.get_number_ok hk hd g
+    obtain ⟨ev, f, hc⟩ := (frontEval_complete_const t₂ a₁ c).1 e
+    rcases Simp.fresh_of_retry_number (Table.sub_get hs) hT hlit (leftBy_of_frontEval hl) f hc with
+      ⟨ev₂, f₂, c₂⟩ | ⟨ko, y, f₂⟩
+    · exact .inl ⟨_, Front.get_number_intro hk loc hd ((frontEval_complete_const t₂ a c).2 ⟨ev₂, f₂, c₂⟩) n⟩
+    · exact .inr ⟨y, done, _, Front.get_eval_error (Front.number_evals hk) loc hd (frontEval_overflow f₂), trivial⟩
+
+/-- `GrowsO` at a position that is not evaluated -/
+theorem growsO_nonevals {t₁ t₂ : Table} (hs : Table.Sub t₁ t₂) {k : Front.Kind} (hk : k.evals = false) (a : Arg) :
+    Front.GrowsO k (frontEval t₁) (frontEval t₂) a :=
+  ⟨fun a' h => frontEval_complete_mono' hs h, fun h => by rw [hk] at h; cases h⟩
+
+end Trion.Asm
